@@ -228,6 +228,9 @@ HISTORIES = [
     ("transform_after_transform_on_same_shape_data", ["fit A", "transform C", "OBS transform A"], "A"),
     ("second_detector_on_same_shape_data", ["OTHER fit C", "OTHER predict C", "fit A", "OBS predict A"], "A"),
     ("differently_configured_instance_first", ["ALT fit C", "ALT predict C", "ALT transform_scores C", "fit A", "OBS predict A"], "A"),
+    # S: a dataset one row SHORTER than A (anything derived from the data's length and kept between calls shows here)
+    ("earlier_predict_on_shorter_data", ["fit A", "predict S", "transform_scores S", "OBS predict A"], "A"),
+    ("earlier_fit_and_predict_on_shorter_data", ["fit S", "predict S", "fit A", "OBS transform_scores A"], "A"),
     ("fitted_on_same_shape_data", ["fit C", "OBS predict A"], "C"),
     ("fitted_on_same_shape_data_scores", ["fit C", "transform_scores C", "OBS transform_scores A"], "C"),
 ]
@@ -252,6 +255,7 @@ def make_det(det, n, p, group="same_train", wrap=False):
     if det == "StatThresholdAnomaliser" or wrap:
         data["B2"] = pd.DataFrame(rngB.integers(-4, 5, size=(7, 1)).astype(float))
     data["C"] = pd.DataFrame(np.random.default_rng(6).integers(-4, 5, size=(n, p)).astype(float))
+    data["S"] = pd.DataFrame(np.random.default_rng(7).integers(-4, 5, size=(max(n - 1, 1), p)).astype(float))
 
     def call(d, scorers, op, X, pcols):
         _set_p(scorers, pcols)
@@ -292,6 +296,11 @@ def make_det(det, n, p, group="same_train", wrap=False):
                             call(tgt, alts, op, X, X.shape[1])
                         except ValueError:
                             pass        # the differently configured instance does not accept data this short: it then did nothing
+                    elif name == "S":
+                        try:
+                            call(tgt, scorers, op, X, X.shape[1])
+                        except ValueError:
+                            pass        # shorter than the configuration's minimum length: a documented refusal
                     else:
                         call(tgt, scorers, op, X, X.shape[1])
                 got_params = fitted_params(d)
@@ -614,6 +623,7 @@ def replay(cx):
     data = {"A": Af, "B": pd.DataFrame(rngB.integers(-4, 5, size=(6, p)).astype(float)),
             "B2": pd.DataFrame(rngB.integers(-4, 5, size=(7, 3 - p if (det != "StatThresholdAnomaliser" and not info.get("wrap")) else 1)).astype(float))}
     data["C"] = pd.DataFrame(np.random.default_rng(6).integers(-4, 5, size=(n, p)).astype(float))
+    data["S"] = pd.DataFrame(np.random.default_rng(7).integers(-4, 5, size=(max(n - 1, 1), p)).astype(float))
     bad = []
     # dataset A answers with the solver model's table values (so the replay walks the path the solver found)
     _Tagged.replay_A = (Af.values.astype(float), {k: v for k, v in env.items()})
@@ -640,7 +650,7 @@ def replay(cx):
                     _set_p(alts if parts[0] == "ALT" else scorers, X.shape[1])
                     if parts[0] == "OBS":
                         obs = observe(d, X, op)
-                    elif parts[0] == "ALT":
+                    elif parts[0] == "ALT" or name == "S":
                         try:
                             getattr(tgt, op)(X)
                         except (ValueError, NotImplementedError):
